@@ -227,6 +227,50 @@ impl PPRF for GGM {
   }
 }
 
+// Observation hooks for external verification machinery. Compiled only
+// with the `verif-hooks` feature; they expose read-only views of the
+// retained key material and change no behaviour.
+#[cfg(feature = "verif-hooks")]
+impl GGM {
+  /// For every retained tree node: the 1-byte inputs it covers (decided
+  /// with the same prefix test that evaluation uses), the node depth and
+  /// the node seed.
+  pub fn verif_retained_nodes(&self) -> Vec<(Vec<u8>, usize, Vec<u8>)> {
+    self
+      .key
+      .prefixes
+      .iter()
+      .map(|(pfx, seed)| {
+        let covered: Vec<u8> = (0u16..256)
+          .map(|x| x as u8)
+          .filter(|x| {
+            bvcast_u8_to_usize(&BitVec::<_, Lsb0>::from_slice(&[*x]))
+              .starts_with(&pfx.bits)
+          })
+          .collect();
+        (covered, pfx.len(), seed.clone())
+      })
+      .collect()
+  }
+
+  /// The inputs recorded as punctured (those that match a recorded
+  /// punctured prefix in full).
+  pub fn verif_punctured(&self) -> Vec<u8> {
+    (0u16..256)
+      .map(|x| x as u8)
+      .filter(|x| {
+        let bv = bvcast_u8_to_usize(&BitVec::<_, Lsb0>::from_slice(&[*x]));
+        self.key.punctured.iter().any(|p| p.bits == bv)
+      })
+      .collect()
+  }
+
+  /// The keys of the length-doubling generators (static key material).
+  pub fn verif_prg_keys(&self) -> Vec<[u8; 32]> {
+    self.key.prgs.iter().map(|p| p.key).collect()
+  }
+}
+
 fn sample_secret() -> Vec<u8> {
   let mut out = vec![0u8; 32];
   OsRng.fill(out.as_mut_slice());
